@@ -30,13 +30,15 @@ theorem C11c_response_is_linearized_result {op : Op} {r r' : Option Nat} {t : Na
 /-- a linearization event is accepted only between the invocation and the response of an operation
 it matches: same kind, same key, same arguments -/
 theorem C11c_lin_event_matches_call {p p' : Ph} {t k : Nat} {r : Option Nat}
-    (h : phStep p (.rd t k r) = some p') : p = .called (.get k) ∧ p' = .lin (.get k) r := by
+    (h : phStep p (.rd t k r) = some p') :
+    (p = .called (.get k) ∧ p' = .lin (.get k) r) ∨ (p = .called (.peek k) ∧ p' = .lin (.peek k) r) := by
   cases p with
   | idle => simp [phStep] at h
   | lin op r' => simp [phStep] at h
   | called op =>
     cases op <;> simp [phStep, linRes] at h
-    case get k' => exact ⟨by rw [h.1], by rw [← h.2, h.1]⟩
+    case get k' => left; exact ⟨by rw [h.1], by rw [← h.2, h.1]⟩
+    case peek k' => right; exact ⟨by rw [h.1], by rw [← h.2, h.1]⟩
 
 /-- at quiescence every operation has completed: every thread's projection ends in phase `idle` -/
 theorem C11c_quiescent_all_complete {c : Cfg} {s : State} (h : Reach c s) (hq : Quiescent c s) (t : Nat)
